@@ -1421,7 +1421,8 @@ namespace hgraph::stdlib
         [[nodiscard]] inline WiringPortRef add_compiled_switch(
             Wiring &w, WiringPortRef key, std::vector<WiringPortRef> ts,
             SwitchNodeSpec spec, const TSValueTypeMetaData *output_schema,
-            Value config, std::type_index definition, const char *display_name)
+            Value config, std::type_index definition, const char *display_name,
+            std::span<const std::pair<std::string, std::size_t>> named_slots = {})
         {
             const auto *key_schema = TypeRegistry::instance().dereference(key.schema);
             std::vector<std::pair<std::string, const TSValueTypeMetaData *>> fields;
@@ -1429,7 +1430,16 @@ namespace hgraph::stdlib
             fields.emplace_back("key", key_schema);
             for (std::size_t i = 0; i < ts.size(); ++i)
             {
-                fields.emplace_back(std::to_string(i), ts[i].schema);
+                // A keyword slot carries its keyword in the field name: the
+                // branches bind it BY NAME, so two calls that pass the same
+                // sources under different keywords are different nodes and
+                // must not intern to one (the input schema joins the identity).
+                std::string field_name = std::to_string(i);
+                for (const auto &[name, slot] : named_slots)
+                {
+                    if (slot == i) { field_name += ":" + name; }
+                }
+                fields.emplace_back(std::move(field_name), ts[i].schema);
             }
             const auto *input_schema = TypeRegistry::instance().un_named_tsb(fields);
 
@@ -1544,7 +1554,8 @@ namespace hgraph::stdlib
 
             return add_compiled_switch(
                 w, std::move(key), std::move(ts), std::move(spec), output_schema,
-                Value{cases}, std::type_index(typeid(switch_node_tag)), "switch_");
+                Value{cases}, std::type_index(typeid(switch_node_tag)), "switch_",
+                {named_slots.data(), named_slots.size()});
         }
 
         [[nodiscard]] inline std::optional<bool> probe_switch_output_mode(
@@ -2411,7 +2422,8 @@ namespace hgraph::stdlib
             }
             return add_compiled_switch(
                 w, std::move(key), std::move(ts), std::move(spec), output_schema,
-                Value{cases}, std::type_index(typeid(dispatch_switch_node_tag)), "dispatch_");
+                Value{cases}, std::type_index(typeid(dispatch_switch_node_tag)), "dispatch_",
+                {named_slots.data(), named_slots.size()});
         }
 
         inline void resolve_dispatch_output(ResolutionMap &resolution,
